@@ -294,6 +294,29 @@ def known_findings():
     return res
 
 
+# --------------------------------------------------------------------------- source fingerprints
+
+def anchor_files(pid):
+    for l in open(os.path.join(VERIF, "properties.jsonl")):
+        d = json.loads(l)
+        if d["id"] == pid:
+            return d["anchors"]["files"]
+    return []
+
+
+def source_fingerprint(pid):
+    """sha256 over the anchored source files of the property in the current tree"""
+    h = hashlib.sha256()
+    for f in sorted(anchor_files(pid)):
+        p = os.path.join(REPO, f)
+        h.update(f.encode())
+        try:
+            h.update(open(p, "rb").read())
+        except OSError:
+            h.update(b"<missing>")
+    return h.hexdigest()[:16]
+
+
 # --------------------------------------------------------------------------- context
 
 class Ctx:
@@ -310,6 +333,15 @@ class Ctx:
         self.assumptions = []
         self.notes = []
         self._distinct = set()
+        self.escalated = False
+        try:
+            base = json.load(open(os.path.join(VERIF, "tools", "fingerprints.json"))).get(pid)
+            cur = source_fingerprint(pid)
+            self.escalated = base is not None and cur != base
+            self.cov["source_fingerprint"] = cur
+            self.cov["escalated_by_source_fingerprint"] = self.escalated
+        except Exception:
+            pass
         os.makedirs(os.path.join(VERIF, "replays"), exist_ok=True)
         os.makedirs(os.path.join(VERIF, "evidence"), exist_ok=True)
 
@@ -318,7 +350,13 @@ class Ctx:
         return self.tier == "thorough"
 
     def budget(self, quick, thorough):
-        return thorough if self.thorough else quick
+        """case budget; a quick run on a tree whose anchored sources differ from the validated
+        fingerprint is escalated (DESIGN §2.4: effort escalation, never an alarm by itself)"""
+        if self.thorough:
+            return thorough
+        if self.escalated and isinstance(quick, int) and isinstance(thorough, int) and thorough > quick:
+            return int(max(quick, min(thorough, round((quick * thorough) ** 0.5))))
+        return quick
 
     # ---- obligations: build Props module + drivers, audit
     def obligations(self, module, drivers=()):
